@@ -63,6 +63,11 @@ def _check(ctx: Ctx) -> None:
 
     loop = message_loop(fi.node)
     out = output_list_name(fi.node)
+    if loop is not None and out is None:
+        ctx.violation("KEEP", f"{FN}: the result list is installed as the sequence's event list", function=FN,
+                      construct="the operation never installs its result (`self._messages = <result list>` is missing)",
+                      message="the rebuilt list is dropped on return: the sequence is left exactly as it was", file=fi.file, node=fi.node)
+        return
     if loop is None or out is None:
         raise AnalysisError(f"{FN}: message loop / output list not found")
     m = loop.target.id
@@ -78,7 +83,10 @@ def _check(ctx: Ctx) -> None:
                       f"changed at every occurrence", file=fi.file, node=attr_ws[0].node if attr_ws else fi.node)
     acc = find_accumulator(fi.node, loop)
     if acc is None:
-        ctx.floor(f"wait accumulator (`x += {m}.time`) in {FN}", 0, 1)
+        ctx.require("ACC1", f"{FN}: every WAIT adds its time to the accumulated wait", 0, 1, function=FN,
+                    construct="the normaliser never adds a wait's time to an accumulator",
+                    message=f"no `x += {m}.time` in the loop over the messages: the time of the waits is lost (or the waits are handled in a way this rule does not know)",
+                    file=fi.file, node=loop)
         return
     ctx.ok("OUT", f"{FN}: `{out}` becomes the event list")
 
